@@ -65,6 +65,11 @@ const c05Contract = `access(all) contract P {
     access(all) fun putD(_ x: Int) { self.d!.insert(key: 100000, x) }
   }
   access(all) fun optArr(_ s: Int): [[Int]?] { let r: [[Int]?] = []; var i = 0; while i < s { r.append([i, i + 1]); i = i + 1 }; return r }
+  // elements too large to be stored inline: even a one-element container holds a slab reference
+  access(all) fun hugeInts(_ s: Int): [Int] { let r: [Int] = []; var i = 0; while i < s { r.append((1 << 4096) + i); i = i + 1 }; return r }
+  access(all) fun hugeUInts(_ s: Int): [UInt] { let r: [UInt] = []; var i = 0; while i < s { r.append((UInt(1) << 4096) + UInt(i)); i = i + 1 }; return r }
+  access(all) fun hugeDict(_ s: Int): {UInt64: UInt} { let r: {UInt64: UInt} = {}; var i = 0; while i < s { r[UInt64(i)] = (UInt(1) << 4096) + UInt(i); i = i + 1 }; return r }
+  access(all) fun longStrs(_ s: Int): [String] { let r: [String] = []; var i = 0; while i < s { var t = i.toString(); while t.length < 1000 { t = t.concat("0123456789") }; r.append(t); i = i + 1 }; return r }
   access(all) fun ints(_ s: Int): [Int] { let r: [Int] = []; var i = 0; while i < s { r.append(i); i = i + 1 }; return r }
   access(all) fun ints2(_ s: Int): [[Int]] { let r: [[Int]] = []; var i = 0; while i < s { r.append([i, i + 1]); i = i + 1 }; return r }
   access(all) fun ints3(_ s: Int): [[[Int]]] { let r: [[[Int]]] = []; var i = 0; while i < s { r.append([[i], [i + 1, i + 2]]); i = i + 1 }; return r }
@@ -128,6 +133,15 @@ var c05Shapes = []c05Shape{
 		{"addO", 2, "X.addO(99)", 0, false, false}, {"setSN", 2, "X.setSN(99)", 0, false, false}, {"pushS", 3, "X.pushS(99)", 0, false, false}, {"putD", 2, "X.putD(7)", 0, false, false}}, true},
 	{"Opt?", "P.Opt?", "P.Opt(%d)", []c05Mut{
 		{"addO", 3, "X!.addO(99)", 0, false, false}, {"pushS", 3, "X!.pushS(99)", 0, false, false}}, true},
+	// elements too large to inline in small, single-slab containers
+	{"[Int]/huge", "[Int]", "P.hugeInts(%d)", []c05Mut{
+		{"set0", 1, "X[0] = 99", 1, false, false}, {"append", 1, "X.append(99)", 0, false, false}, {"remove0", 1, "X.remove(at: 0)", 1, false, false}}, true},
+	{"[UInt]/huge", "[UInt]", "P.hugeUInts(%d)", []c05Mut{
+		{"set0", 1, "X[0] = 99", 1, false, false}, {"append", 1, "X.append(99)", 0, false, false}}, true},
+	{"{UInt64: UInt}/huge", "{UInt64: UInt}", "P.hugeDict(%d)", []c05Mut{
+		{"set0", 1, "X[0] = 99", 0, false, false}, {"remove0", 1, "X.remove(key: 0)", 1, false, false}}, true},
+	{"[String]/long", "[String]", "P.longStrs(%d)", []c05Mut{
+		{"set0", 1, "X[0] = \"z\"", 1, false, false}, {"append", 1, "X.append(\"z\")", 0, false, false}}, true},
 }
 
 // a copy form: code that runs after `var v: T = ...; log(v)` and defines the
@@ -320,7 +334,10 @@ func c05Run(c c05Case) (verdict, detail string, changed bool) {
 			if strings.Contains(res.Kind, "CheckerError") || strings.Contains(res.Kind, "ParserError") {
 				return "skip:rejected-by-checker", res.Kind + ": " + short(res.ErrString(), 300), false
 			}
-			return "skip:runtime-failure:" + res.Class, short(res.ErrString(), 300), false
+			// every generated program that the checker accepts is written to succeed (mutations
+			// are only applied at sizes for which they are valid): a copy, transfer, save or
+			// load that fails at run time did not produce an independent value
+			return "copy-failed:" + res.Class, short(res.ErrString(), 300), false
 		}
 		logs = append(logs, res.Logs...)
 	}
@@ -380,8 +397,15 @@ func runC05(env *mc.Env) {
 			}, 3000)
 		})
 		if err != nil {
-			env.R.HarnessError("C05: threshold measurement for %s failed: %v", sh.name, err)
-			return
+			// if saving a well-formed one-element value fails at run time, that is the property's
+			// business: go on with sizes 0, 1, 2 (thresholds unknown) and let the cases report it
+			probe := rt.Run(c05Base[0].Clone(), rt.Tx{Source: fmt.Sprintf("import P from 0x9\ntransaction { prepare(a: auth(Storage) &Account) { a.storage.save(%s, to: /storage/c) } }", fmt.Sprintf(sh.ctor, 1)), Signers: signers(1)})
+			if probe.OK() || strings.Contains(probe.Kind, "CheckerError") || strings.Contains(probe.Kind, "ParserError") {
+				env.R.HarnessError("C05: threshold measurement for %s failed: %v", sh.name, err)
+				return
+			}
+			env.R.Add("shapes_without_thresholds", 1)
+			th = thresholds{}
 		}
 		ths[sh.name] = th
 		c05Th[sh.name] = th
@@ -433,7 +457,11 @@ func runC05(env *mc.Env) {
 			}
 		case verdict != "":
 			env.R.Eval()
-			env.R.Violation(c05Sig(c, ths[sh.name]), c, detail)
+			sig := c05Sig(c, ths[sh.name])
+			if strings.HasPrefix(verdict, "copy-failed") {
+				sig = strings.Replace(sig, "aliasing|", verdict+"|", 1)
+			}
+			env.R.Violation(sig, c, detail)
 		default:
 			env.R.Eval()
 			env.R.Add("accepted", 1)
